@@ -37,6 +37,7 @@ func runC20(c *Ctx) {
 // poolRule: discipline of pooled objects in the given package subtrees.
 func poolRule(c *Ctx, rule string, pkgPrefixes []string) {
 	p := c.P
+	errorResultProg = p
 	isPut := func(call ssa.CallInstruction) bool {
 		n := calleeName(call)
 		return strings.HasSuffix(n, "internal/memory.(*Pool).Put") || n == "sync.(*Pool).Put"
@@ -542,6 +543,8 @@ func poolDetachRule(c *Ctx, rule string, isGet, isPut func(ssa.CallInstruction) 
 }
 
 // isErrorResultOf: v is (a load of) the named error result of fn.
+var errorResultProg *Prog
+
 func isErrorResultOf(fn *ssa.Function, v ssa.Value) bool {
 	u, ok := v.(*ssa.UnOp)
 	if !ok || u.Op != token.MUL {
@@ -560,6 +563,24 @@ func isErrorResultOf(fn *ssa.Function, v ssa.Value) bool {
 					if i < len(fv.Parent().FreeVars) && fv.Parent().FreeVars[i] == fv {
 						cell = b
 					}
+				}
+			}
+		}
+	}
+	// a helper that is handed the address of its caller's result (`defer
+	// d.release(r, &err)`)
+	if par, ok := cell.(*ssa.Parameter); ok && par.Parent() != nil && errorResultProg != nil {
+		idx := -1
+		for i, q := range par.Parent().Params {
+			if q == par {
+				idx = i
+			}
+		}
+		for _, cs := range callersOf(errorResultProg, par.Parent()) {
+			args := cs.Common().Args
+			if idx >= 0 && idx < len(args) {
+				if a, ok := args[idx].(*ssa.Alloc); ok {
+					cell = a
 				}
 			}
 		}
